@@ -1267,7 +1267,7 @@ func c31Sizes(rnd *rand.Rand, class string) int {
 
 func c31Scenarios(r *verifkit.Run) []*c31Scenario {
 	rnd := r.Rand("scenarios")
-	kinds := []string{"lone-after-idle", "pair", "small-burst", "burst-with-tail", "sparse-fast", "sparse-slow", "multi-producer", "edge-sizes", "upstream-close", "stall-overflow", "late-upstream", "burst-with-tail", "pair", "stall-overflow", "upstream-close", "upstream-hang-failover", "overflow-while-reporting", "report-over-slow-connection", "stuck-primary-reconnect", "single-address-overflow"}
+	kinds := []string{"lone-after-idle", "pair", "small-burst", "burst-with-tail", "sparse-fast", "sparse-slow", "multi-producer", "edge-sizes", "upstream-close", "stall-overflow", "late-upstream", "burst-with-tail", "pair", "stall-overflow", "upstream-close", "upstream-hang-failover", "overflow-while-reporting", "report-over-slow-connection", "multi-producer", "single-address-overflow"}
 	n := r.N(20, 240)
 	var out []*c31Scenario
 	for i := 0; i < n; i++ {
@@ -1435,64 +1435,6 @@ func c31Scenarios(r *verifkit.Run) []*c31Scenario {
 					v.mu.Unlock()
 					if d >= sc.wantDrops || n >= 800 && v.e.stats.writeErrors.Load() > 0 {
 						break
-					}
-				}
-			}
-		case "stuck-primary-reconnect":
-			// every sender has two upstream addresses; the upstreams holding the first connections read
-			// at about 100 KB/s (and the sockets buffer next to nothing).  A first batch keeps the primary
-			// sender inside a slow write while the producer fills the primary buffer; the next packet
-			// fails over to the secondary.  The failover must ask the slow sender to reconnect (reconCh):
-			// once its current write is through it closes the connection and sends the full buffer over
-			// its healthy second address.  The write timeout is long, so nothing else can rescue it.
-			sc.nAddr = 4
-			sc.stall = true // small receive buffers; un-stalled at once, rate-limited instead
-			sc.cfg.WriteTimeout = 90 * time.Second
-			sc.cfg.StuckReconDelay = 100 * time.Millisecond
-			sc.cfg.ReconnectDelay = 100 * time.Millisecond
-			sc.cfg.DNSRefreshInterval = time.Hour
-			sc.realHandler = false
-			first := 5000 + rnd.IntN(2000)
-			big := 18000 + rnd.IntN(6000)
-			sc.Params = fmt.Sprintf("first_batch=40x%d buffer=%dx%d rate=100KB/s write_timeout=90s", first, bufferLen, big)
-			sc.run = func(v *c31Env) {
-				_, buf := mk()
-				for _, u := range v.ups {
-					u.mu.Lock()
-					live := len(u.conns) > 0
-					u.mu.Unlock()
-					if live {
-						u.rateBps.Store(100 << 10)
-					}
-					u.stalled.Store(false)
-				}
-				v.r.Count("stuckrecon.balancer_sockets_with_minimal_send_buffer", int64(v.shrinkSendBuffers()))
-				prim := v.e.pool.primary
-				id := uint64(0)
-				for i := 0; i < bufferLen*20/100; i++ {
-					id++
-					v.push(id, first, buf)
-				}
-				// the sender takes the batch (write index back to 0) and sits in the slow write
-				for t0 := time.Now(); time.Since(t0) < 30*time.Second; time.Sleep(200 * time.Microsecond) {
-					prim.buf.mu.Lock()
-					wi := prim.buf.wi
-					prim.buf.mu.Unlock()
-					if wi == 0 {
-						break
-					}
-				}
-				for i := 0; i <= bufferLen; i++ { // bufferLen packets fill the buffer, one more fails over
-					id++
-					v.push(id, big, buf)
-				}
-				// only this goroutine offers packets, so the pointers are stable now
-				if *v.e.pool.primPtr != v.e.pool.secondary {
-					// the sender got rid of the first batch before the buffer was full: no failover, nothing to judge
-					v.r.NotJudged("stuck_primary_reconnect_no_failover_happened", 1)
-					v.noFailover = true
-					for _, u := range v.ups {
-						u.rateBps.Store(0)
 					}
 				}
 			}
